@@ -103,6 +103,7 @@ def to_events(calls, root, values_bytes):
     """values_bytes: {value name: serialized bytes}.  Returns (events, paths, notes)."""
     hexroot = "".join("\\x%02x" % b for b in root.encode())
     fds = {}           # (fd) -> relative path (one process, fds are process-wide)
+    dirfds = {}        # fd of a directory inside the store -> relative path
     written = {}       # path -> bytes currently in kernel
     events, notes = [], []
     paths = set()
@@ -112,6 +113,8 @@ def to_events(calls, root, values_bytes):
         p = _unhex(hexpath).decode("utf8", "replace")
         if p.startswith(root + "/"):
             return p[len(root) + 1:]
+        if p.rstrip("/") == root:
+            return ""               # the store's root directory itself
         return None
 
     def classify(path):
@@ -142,6 +145,9 @@ def to_events(calls, root, values_bytes):
             r = rel(m.group(1))
             if r is None:
                 continue
+            if "O_DIRECTORY" in args:
+                dirfds[ret] = r
+                continue
             if "O_WRONLY" in args or "O_RDWR" in args or call == "creat":
                 fds[ret] = r
                 paths.add(r)
@@ -169,8 +175,11 @@ def to_events(calls, root, values_bytes):
             fd = args.strip()
             if fd in fds:
                 events.append({"ev": "fsync", "path": fds[fd]})
+            elif fd in dirfds:
+                events.append({"ev": "dirsync", "path": dirfds[fd]})
         elif call == "close":
             fd = args.strip()
+            dirfds.pop(fd, None)
             if fd in fds:
                 events.append({"ev": "close", "path": fds.pop(fd)})
         elif call in ("mkdir", "mkdirat"):
@@ -179,7 +188,20 @@ def to_events(calls, root, values_bytes):
                 r = rel(m.group(1))
                 if r is not None:
                     events.append({"ev": "mkdir", "path": r})
-        elif call in ("rename", "renameat", "renameat2", "unlink", "unlinkat", "ftruncate", "truncate"):
+        elif call in ("rename", "renameat", "renameat2"):
+            m = [rel(x) for x in re.findall(r'"((?:\\x[0-9a-f]{2})+)"', args)]
+            if len(m) == 2 and m[0] is not None and m[1] is not None:
+                paths.update(m)
+                if m[0] in written:
+                    written[m[1]] = written.pop(m[0])
+                for fd_, p_ in list(fds.items()):
+                    if p_ == m[0]:
+                        fds[fd_] = m[1]
+                events.append({"ev": "rename", "path": m[0], "to": m[1]})
+            elif any(x is not None for x in m):
+                notes.append(f"rename across the store boundary: {call}")
+                events.append({"ev": "unmodelled", "call": call})
+        elif call in ("unlink", "unlinkat", "ftruncate", "truncate"):
             m = re.findall(r'"((?:\\x[0-9a-f]{2})+)"', args)
             if any(rel(x) is not None for x in m):
                 notes.append(f"unmodelled call on the store directory: {call}")
